@@ -20,7 +20,7 @@ def loop_shape(fn, ctx, L):
     v = ini["vars"][0]
     var = ("var", v["d"], v["n"])
     out["var"] = var
-    out["start"] = ctx.key(v["init"])
+    out["start"] = _unconv(ctx.key(v["init"]))
     # increment: ++v, v++, v += 1
     stepok = False
     incparts = []
@@ -64,7 +64,7 @@ def loop_shape(fn, ctx, L):
             return True
         return False
     if f[0] in ("<", "<=") and thin(f[1]):
-        out.update(kind="index", rel=f[0], bound=f[2])
+        out.update(kind="index", rel=f[0], bound=_unconv(f[2]))
         return out
     if f[0] == "!=":
         a, b = f[1], f[2]
@@ -76,6 +76,13 @@ def loop_shape(fn, ctx, L):
                 out.update(kind="iter", bound=m)
                 return out
     return out
+
+
+def _unconv(k):
+    """strip single-argument conversion constructors / casts around a loop start or bound (class-typed counters)"""
+    while isinstance(k, tuple) and ((k[0] == "ctor" and len(k) == 3) or k[0] == "cast"):
+        k = k[2]
+    return k
 
 
 def loop_exits(fn, L):
